@@ -54,3 +54,22 @@ func init() {
 	seed(Seed{Name: "lww-gob-order", Prop: "C12", Rule: "GOB-PAIR", File: "distsys/resources/lww.go",
 		Old: "\t\tif err := encoder.Encode(s.remSet.Len()); err != nil {\n\t\t\treturn nil, err\n\t\t}\n", New: "", Expect: "LWWSet"})
 }
+
+func init() {
+	const sym = "distsys/tla/symbols.go"
+	seed(Seed{Name: "less-than-becomes-leq", Prop: "C03", Rule: "OP-RELATION", File: sym,
+		Old: "return MakeBool(lhs.AsNumber() < rhs.AsNumber())", New: "return MakeBool(lhs.AsNumber() <= rhs.AsNumber())", Expect: "ModuleLessThanSymbol"})
+	seed(Seed{Name: "geq-operands-swapped", Prop: "C03", Rule: "OP-RELATION", File: sym,
+		Old: "return MakeBool(lhs.AsNumber() >= rhs.AsNumber())", New: "return MakeBool(rhs.AsNumber() >= lhs.AsNumber())", Expect: "ModuleGreaterThanOrEqualSymbol"})
+	seed(Seed{Name: "minus-operands-swapped", Prop: "C03", Rule: "OP-RELATION", File: sym,
+		Old: "makeNumberChecked(int64(lhs.AsNumber()) - int64(rhs.AsNumber()))", New: "makeNumberChecked(int64(rhs.AsNumber()) - int64(lhs.AsNumber()))", Expect: "ModuleMinusSymbol"})
+	seed(Seed{Name: "dotdot-excludes-upper", Prop: "C03", Rule: "OP-RELATION", File: sym,
+		Old: "for i := from; i <= to; i++ {", New: "for i := from; i < to; i++ {", Expect: "ModuleDotDotSymbol"})
+	seed(Seed{Name: "doubleat-right-wins", Prop: "C03", Rule: "OVERRIDE-DIR", File: sym,
+		Old: "\tit := lhsFn.Iterator()\n\tfor !it.Done() {\n\t\tkey, value, _ := it.Next()\n\t\trhsFn = rhsFn.Set(key, value)\n\t}\n\treturn MakeRecordFromMap(rhsFn)",
+		New: "\tit := rhsFn.Iterator()\n\tfor !it.Done() {\n\t\tkey, value, _ := it.Next()\n\t\tlhsFn = lhsFn.Set(key, value)\n\t}\n\treturn MakeRecordFromMap(lhsFn)", Expect: "ModuleDoubleAtSignSymbol"})
+	seed(Seed{Name: "except-extends-domain", Prop: "C03", Rule: "GET-OK-USED", File: "distsys/tla/builtins.go",
+		Old: "\t\t\t\tval, keyOk := sourceFn.Get(keys[0])\n\t\t\t\trequire(keyOk, \"invalid key during function substitution\")\n", New: "\t\t\t\tval, _ := sourceFn.Get(keys[0])\n", Expect: "FunctionSubstitution"})
+	seed(Seed{Name: "apply-zero-based", Prop: "C03", Rule: "INDEX-BASE", File: "distsys/tla/value.go",
+		Old: "return data.Get(idx - 1)", New: "return data.Get(idx)", Expect: "ApplyFunction"})
+}
